@@ -47,12 +47,12 @@ def iter : Nat → Groups → Groups
   | n + 1, g => let r := round g; if r.2 then r.1 else iter n r.1
 
 /-- Σ depth(key) · |group| : strictly decreases in every round that is not the last one -/
-def measure (g : Groups) : Nat := (g.map (fun xy => xy.1.length * xy.2.length)).sum
+def weight (g : Groups) : Nat := (g.map (fun xy => xy.1.length * xy.2.length)).sum
 
 /-- the grouping `schedule_posedge_flip` ends with -/
 def grouping (sigs : List Sig) : Groups :=
   let g := initial sigs
-  iter (measure g + 1) g
+  iter (weight g + 1) g
 
 /-- the signals flipped by the generated function, in emission order (up to the `sorted(..., key=repr)` inside a group) -/
 def flips (g : Groups) : List Sig := (g.map (·.2)).flatten
